@@ -328,8 +328,15 @@ fn observe(m: &proj::ModuleFacts, c: &Case, i: usize) -> Result<Obs, String> {
 pub fn run(cfg: &RunCfg) -> Report {
     let mut rep = Report::new(
         "C04",
-        "subtype expressions over the 7-point endpoint alphabet {MIN,-3,0,2,7,300,MAX} (sizes: {0,2,7,300,MAX}): every 1- and 2-operand expression (single values, ranges incl. MIN/MAX) × {|, ^, EXCEPT} (also spelled UNION/INTERSECTION), ALL EXCEPT, inner and outer extension marker, and a seeded sample of 3-operand expressions and of 2 serial constraints, on INTEGER (assignment, component, constrained reference, bounds by value reference) and SIZE of OCTET STRING / BIT STRING / IA5String / SEQUENCE OF; oracle: never-excludes at every finite endpoint ±1, exact hull, extensible iff marker. Non-trivial = compiled and annotation read back; distinct = distinct (context, notation)",
+        "[plus contained subtypes as operands of |, ^, EXCEPT in either position and in three-operand unions / intersections, judged for `never excludes a permitted value`] subtype expressions over the 7-point endpoint alphabet {MIN,-3,0,2,7,300,MAX} (sizes: {0,2,7,300,MAX}): every 1- and 2-operand expression (single values, ranges incl. MIN/MAX) × {|, ^, EXCEPT} (also spelled UNION/INTERSECTION), ALL EXCEPT, inner and outer extension marker, and a seeded sample of 3-operand expressions and of 2 serial constraints, on INTEGER (assignment, component, constrained reference, bounds by value reference) and SIZE of OCTET STRING / BIT STRING / IA5String / SEQUENCE OF; oracle: never-excludes at every finite endpoint ±1, exact hull, extensible iff marker. Non-trivial = compiled and annotation read back; distinct = distinct (context, notation)",
     );
+    if let Some(r) = &cfg.replay {
+        let r = r.get("case").unwrap_or(r);
+        if let (Some(t), Some(sx), Some(comp)) = (r["contained_text"].as_str(), r["contained_sx"].as_str(), r["contained_component"].as_bool()) {
+            contained_family(&[(t.to_string(), sx.to_string(), comp)], &mut rep);
+            return rep;
+        }
+    }
     let cases: Vec<Case> = if let Some(r) = &cfg.replay { vec![case_from_json(r).expect("bad replay")] } else {
         let mut c: Vec<Case> = load_corpus("C04").iter().filter_map(case_from_json).collect();
         c.extend(gen_cases(cfg));
@@ -457,7 +464,114 @@ pub fn run(cfg: &RunCfg) -> Report {
             }
         }
     }
+    if cfg.replay.is_none() {
+        contained_family(&gen_contained(), &mut rep);
+    }
     rep
+}
+
+const CONTAINED: [(&str, Option<i128>, Option<i128>); 3] = [("Ct-A", Some(0), Some(300)), ("Ct-B", Some(-3), Some(2)), ("Ct-C", Some(7), None)];
+
+/// Contained subtypes as operands: `INTEGER (Ct-A | 0..7)`, `(0..7 ^ Ct-B)`, `(Ct-C EXCEPT 2)`, three operands of
+/// one operator with the contained subtype in every position. (constraint text, C04-style s-expression in which the
+/// contained subtype is written as the range it stands for, component?)
+fn gen_contained() -> Vec<(String, String, bool)> {
+    let others: [(Option<i128>, Option<i128>, bool); 5] = [(Some(2), Some(2), true), (Some(0), Some(7), false), (Some(-3), Some(300), false), (None, Some(0), false), (Some(300), Some(300), true)];
+    let show = |e: &(Option<i128>, Option<i128>, bool)| if e.2 { e.0.unwrap().to_string() } else { format!("{}..{}", e.0.map_or("MIN".into(), |v| v.to_string()), e.1.map_or("MAX".into(), |v| v.to_string())) };
+    let sx = |e: &(Option<i128>, Option<i128>, bool)| if e.2 { format!("( single {} )", e.0.unwrap()) } else { format!("( range {} {} )", sx_opt(&e.0), sx_opt(&e.1)) };
+    let mut out = Vec::new();
+    for (cn, clo, chi) in CONTAINED {
+        let ct = (clo, chi, false);
+        for o in &others {
+            for (op_txt, op_sx) in [(" | ", "union"), (" ^ ", "inter"), (" EXCEPT ", "except")] {
+                for ct_first in [true, false] {
+                    let (t, x) = if ct_first {
+                        (format!("({cn}{op_txt}{})", show(o)), format!("( chain f f f f {} ( ( {op_sx} {} ) ) )", sx(&ct), sx(o)))
+                    } else {
+                        (format!("({}{op_txt}{cn})", show(o)), format!("( chain f f f f {} ( ( {op_sx} {} ) ) )", sx(o), sx(&ct)))
+                    };
+                    for comp in [true, false] {
+                        out.push((t.clone(), format!("( {x} )"), comp));
+                    }
+                }
+            }
+            // three operands of one operator, the contained subtype in each position
+            for (op_txt, op_sx) in [(" | ", "union"), (" ^ ", "inter")] {
+                let o2 = (Some(0), Some(2), false);
+                for pos in 0..3 {
+                    let mut els: Vec<(String, String)> = vec![(show(o), sx(o)), (show(&o2), sx(&o2))];
+                    els.insert(pos, (cn.to_string(), sx(&ct)));
+                    let t = format!("({})", els.iter().map(|e| e.0.clone()).collect::<Vec<_>>().join(op_txt));
+                    let x = format!("( chain f f f f {} ( ( {op_sx} {} ) ( {op_sx} {} ) ) )", els[0].1, els[1].1, els[2].1);
+                    out.push((t, format!("( {x} )"), true));
+                }
+            }
+        }
+    }
+    out
+}
+
+fn contained_family(cases: &[(String, String, bool)], rep: &mut Report) {
+    let rcfg = rasn_compiler::prelude::RasnConfig::default();
+    let defs: String = CONTAINED.iter().map(|(n, lo, hi)| format!("{n} ::= INTEGER ({}..{})\n", lo.map_or("MIN".into(), |v| v.to_string()), hi.map_or("MAX".into(), |v| v.to_string()))).collect();
+    let asn = |i: usize| if cases[i].2 { format!("S{i} ::= SEQUENCE {{ f INTEGER {} }}", cases[i].0) } else { format!("A{i} ::= INTEGER {}", cases[i].0) };
+    let render = |idx: &[usize]| vec![format!("C04c-Mod DEFINITIONS AUTOMATIC TAGS ::= BEGIN\n{defs}{}\nEND\n", idx.iter().map(|i| asn(*i)).collect::<Vec<_>>().join("\n"))];
+    let mut reqs = Vec::new();
+    let mut meta = Vec::new();
+    for (idx, outcome) in batch_compile(cases.len(), 120, &render, &rcfg) {
+        match outcome {
+            Outcome::Ok { generated, warnings } => {
+                let Ok(mods) = proj::project(&generated) else { continue };
+                let Some(m) = mods.first() else { continue };
+                for i in idx {
+                    rep.evaluations += 1;
+                    let probe = Case { ctx: if cases[i].2 { Ctx::IntComp } else { Ctx::IntAssign }, cons: vec![], words: false };
+                    match observe(m, &probe, i) {
+                        Ok(Obs::Bad(b)) => rep.harness_errors.push(format!("unparsed annotation `{b}` for {}", asn(i))),
+                        Ok(o) => {
+                            rep.count("contained-subtype-operand");
+                            rep.distinct.insert(format!("contained|{}|{}", cases[i].0, cases[i].2));
+                            let obs_sx = match &o {
+                                Obs::None => "none".to_string(),
+                                Obs::Attr { size, lo, hi, ext } => format!("( attr {} {} {} {} )", sx_bool(*size), sx_opt(lo), sx_opt(hi), sx_bool(*ext)),
+                                Obs::Bad(_) => unreachable!(),
+                            };
+                            reqs.push(format!("c04sound t f {} {}", cases[i].1, obs_sx));
+                            meta.push((i, obs_sx));
+                        }
+                        Err(_) => {
+                            if warnings.iter().any(|w| w.contains("Empty intersection") || w.contains(&format!("S{i}")) || w.contains(&format!("A{i}"))) {
+                                rep.count("not-judged:dropped-with-warning");
+                            } else {
+                                rep.count("contained:unobserved");
+                            }
+                        }
+                    }
+                }
+            }
+            Outcome::Err(e) => {
+                rep.count("compile-err");
+                rep.sample(json!({"compile_err": e, "asn1": asn(idx[0])}));
+            }
+            Outcome::Panic(p) => rep.harness_errors.push(format!("panic on {}: {p}", asn(idx[0]))),
+        }
+    }
+    match run_driver(&reqs) {
+        Ok(ans) => {
+            for (k, a) in ans.iter().enumerate() {
+                let (i, obs) = &meta[k];
+                let verdict = a.split_once(' ').map(|x| x.1).unwrap_or(a);
+                if let Some(rest) = verdict.strip_prefix("bad:") {
+                    rep.unsat("", false, json!({"why": rest, "case": {"contained_text": cases[*i].0, "contained_sx": cases[*i].1, "contained_component": cases[*i].2, "asn1": asn(*i), "observed": obs}}));
+                } else if verdict.starts_with("skip") {
+                    rep.count("not-judged:empty-set");
+                } else if verdict != "ok" {
+                    rep.harness_errors.push(format!("driver answer `{a}`"));
+                }
+            }
+        }
+        Err(e) => rep.harness_errors.push(e),
+    }
 }
 
 fn case_from_json(v: &serde_json::Value) -> Option<Case> {
